@@ -49,6 +49,15 @@ CHECKS = {
         "level_note": "Seeks beyond NumRows and use after Close are outside the asserted domain. Async mode explores only the schedules the runtime happens to produce.",
         "design_ref": "DESIGN.md §4 C08",
     },
+    "C07": {
+        "pkg": "c07", "level": "exploration",
+        "quick": {"shards": 8, "checks": 500, "timeout": 900},
+        "thorough": {"shards": 16, "checks": 8000, "timeout": 5000},
+        "technique": "property-based testing (rapid): generated files with bloom filters over all physical types and producer paths; every written value must be reported present (membership oracle from the reference rows)",
+        "level_text": "Random search over column type x encoding x dictionary limit (fallback) x bits-per-value x row-group split x gzip/deferred filter x producer path (WriteRows, Reset+WriteRows, WriteRowGroup from buffer / from a file with same or different configuration, CopyRows); row plans can be made fully distinct per row so dictionaries overflow and filters carry hundreds of values. The oracle needs no expected value: every written non-null value of a chunk must Check() true.",
+        "level_note": "Chunk membership is derived from reference rows and row-group row counts. False-positive rate is not a property and is not measured.",
+        "design_ref": "DESIGN.md §4 C07",
+    },
 }
 
 NOT_APPLICABLE = {
